@@ -61,7 +61,7 @@ def _wide_bounds(draw):
 
 def _coef(draw, nonunit):
     k = draw(st.integers(0, 19))
-    z, u, s = (5, 8, 17) if nonunit else (7, 14, 18)
+    z, u, s = (4, 8, 18) if nonunit else (6, 14, 19)
     if k < z:
         return 0
     sign = draw(st.sampled_from([1, -1]))
@@ -118,7 +118,7 @@ def system_case(draw, profile="small", nonunit=False, guard=4096, max_rows=5, ma
     m = []
     for _ in range(nr):
         a = [_coef(draw, nonunit) for _ in range(nc)]
-        if not any(a) and draw(st.integers(0, 3)) > 0:
+        if not any(a) and draw(st.integers(0, 7)) > 0:
             a[draw(st.integers(0, nc - 1))] = draw(st.sampled_from([1, -1, 2, -3]))
         lo_r, hi_r = row_min(a, bounds), row_max(a, bounds)
         wv = sum(c * x for c, x in zip(a, wit))
@@ -399,6 +399,49 @@ def milp_point(rows, bounds, objective, ev):
 
 def unit(j, n, s=1):
     return [s if i == j else 0 for i in range(n)]
+
+
+# ------------------------------------------------------------------------------------------------
+# library calls with a CPU-time watchdog
+# ------------------------------------------------------------------------------------------------
+
+class _Hang(BaseException):
+    pass
+
+
+_CPU_LIMIT = [20.0]     # seconds of *process CPU time* (not wall clock, so machine load cannot trigger it)
+
+
+def bounded(fn, *a, what="call", **kw):
+    """``core.call`` plus a watchdog: the fix-point loop of reducable_rows_and_columns is a Python
+    ``while`` that can spin for ever when reduce_rows/reduce_columns remove the wrong thing; the
+    calls normally take ~1 ms, so 20 s of CPU inside one call is reported as a violation
+    (2 s once a first hang was seen in this process, to keep shrinking affordable)."""
+    import signal
+    fired = []
+
+    def on_alarm(signum, frame):
+        fired.append(1)
+        raise _Hang()
+
+    try:
+        old = signal.signal(signal.SIGVTALRM, on_alarm)
+    except (ValueError, OSError, AttributeError):      # not in the main thread / not available
+        return call(fn, *a, what=what, **kw)
+    try:
+        signal.setitimer(signal.ITIMER_VIRTUAL, _CPU_LIMIT[0])
+        try:
+            return call(fn, *a, what=what, **kw)
+        finally:
+            signal.setitimer(signal.ITIMER_VIRTUAL, 0)
+    except BaseException:       # core.call may already have wrapped the _Hang
+        if fired:
+            limit = _CPU_LIMIT[0]
+            _CPU_LIMIT[0] = 2.0
+            raise Violation(f"{what} did not return within {limit:g} s of CPU time (non-terminating loop?)")
+        raise
+    finally:
+        signal.signal(signal.SIGVTALRM, old if old is not None else signal.SIG_DFL)
 
 
 # ------------------------------------------------------------------------------------------------
